@@ -301,6 +301,50 @@ def h_array(dtype, mname, k, t):
     return h
 
 
+ARRAY_DTYPES = {
+    'uint:0': lambda B: 'uint:0', 'pad:0': lambda B: 'pad:0', 'bits:0': lambda B: 'bits:0', 'hex0': lambda B: 'hex0', 'u8': lambda B: 'u8', 'ue': lambda B: 'ue', 'bin': lambda B: 'bin', 'zzz': lambda B: 'zzz',
+    'float:15': lambda B: 'float:15', 'bool': lambda B: 'bool', '>H': lambda B: '>H', 'pad:3': lambda B: 'pad:3', 'bytes:0': lambda B: 'bytes:0', "Dtype('ue')": lambda B: B.Dtype('ue'),
+    "Dtype('uint', 0)": lambda B: B.Dtype('uint', 0), "Dtype('bin')": lambda B: B.Dtype('bin'), "Dtype('float16', scale='auto')": lambda B: B.Dtype('float16', scale='auto'),
+    "Dtype('e4m3mxfp', scale='auto')": lambda B: B.Dtype('e4m3mxfp', scale='auto'), "Dtype('uint8', scale=0)": lambda B: B.Dtype('uint8', scale=0), "Dtype('uint8', scale=-2)": lambda B: B.Dtype('uint8', scale=-2),
+    "Dtype('bfloat', scale='auto')": lambda B: B.Dtype('bfloat', scale='auto'),
+}
+
+
+def h_array_ctor(dkey):
+    """Array construction with adversarial dtypes and initialisers, then the basic protocol on whatever was created: no arithmetic is involved, so only the
+    documented exception types are acceptable (ZeroDivisionError / OverflowError are internal errors here)"""
+    def h(K):
+        import bitstring
+        mk_dtype = ARRAY_DTYPES[dkey]
+        rd = call(lambda: mk_dtype(bitstring))
+        if not rd.ok:
+            return K.check(_documented(rd.exc), 'an internal (undocumented) exception escaped from Dtype()', exc=rd.excname, dtype=dkey)
+        init = K.choice('init', ['none', 'empty', 'zeros', 'inf', 'nan', 'huge', 'count', 'bytes', 'str', 'neg', 'bits', 'mixed'])
+        iv = {'none': None, 'empty': [], 'zeros': [0, 0], 'inf': [float('inf')], 'nan': [float('nan'), 1.0], 'huge': [1e308, -1e308], 'count': 3, 'bytes': b'ab', 'str': 'x', 'neg': -1,
+              'bits': bitstring.Bits('0b101'), 'mixed': [1, 'x', None]}[init]
+        if init in ('inf', 'nan', 'huge') and not any(f in dkey for f in ('float', 'mxfp', 'bfloat')):
+            return True        # a float is not a value of the documented type for a non-float dtype: outside the property
+        tb = K.choice('trailing', [None, '0b1', 'zz'])
+        r = call(lambda: bitstring.Array(rd.value, iv, tb))
+        if not r.ok:
+            return K.check(_documented(r.exc), 'an internal (undocumented) exception escaped from Array()', exc=r.excname, dtype=dkey, init=init)
+        a = r.value
+        opts = (bitstring.options.lsb0, bitstring.options.bytealigned, bitstring.options.mxfp_overflow)
+        ops = {'len': lambda: len(a), 'repr': lambda: repr(a), 'itemsize': lambda: a.itemsize, 'tolist': lambda: a.tolist(), 'append0': lambda: a.append(0), "append''": lambda: a.append(''),
+               'getitem0': lambda: a[0], 'trailing': lambda: a.trailing_bits, 'iter': lambda: list(a), 'copy': lambda: a.__copy__(), 'equals': lambda: a.equals(a), 'pop': lambda: a.pop(),
+               'pp': lambda: a.pp(K.choice('ppfmt', [None, 'hex:0', 'bin', 'uint:0, hex', 'hex4', 'pad:0', 'zzz']), 40, True, io.StringIO()),
+               'set-dtype': lambda: set_attr(a, 'dtype', K.choice('nd', ['uint:0', 'u8', 'ue', 'zzz']))}
+        what = K.choice('then', list(ops))
+        rr = call(ops[what])
+        if not rr.ok and not _documented(rr.exc):
+            return K.fail('an internal (undocumented) exception escaped from a basic Array operation', op=what, exc=rr.excname, dtype=dkey, init=init)
+        ok = (bitstring.options.lsb0, bitstring.options.bytealigned, bitstring.options.mxfp_overflow) == opts and isinstance(a.data, bitstring.BitArray) and len(a.data.bin) == len(a.data)
+        if ok and a.dtype.scale == 'auto':
+            return K.fail("an Array was left with an 'auto' scale dtype (documented as usable only at creation)", op=what, dtype=dkey)
+        return K.check(ok, 'Array invalid after the call or options changed', op=what)
+    return h
+
+
 def _table_complete():
     """every public callable of the four classes must be in METHODS or SKIP"""
     import bitstring
@@ -343,7 +387,7 @@ def conditions(tier):
                     continue
                 if q and cname == 'Bits' and lsb0 and mname.startswith('__') and mname not in ('__getitem__',):
                     continue
-                for n in ([3] if q else [0, 5, 9]):
+                for n in (([3, 6] if (mname in ('read', 'readlist', 'peek', 'peeklist', 'unpack') and not lsb0) else [3]) if q else [0, 5, 9]):
                     add(f"C20.call[{cname}.{mname},n={n}{',lsb0' if lsb0 else ''}]", h_method(cname, mname, n, lsb0),
                         f'all {n}-bit contents, all positions x symbolic/catalogue arguments ({METHODS[mname] or "no arguments"})', cls=cname, method=mname, lsb0=lsb0)
     for cname in (['BitStream'] if q else ['BitArray', 'BitStream']):
@@ -361,6 +405,8 @@ def conditions(tier):
             if q and cname == 'BitStream' and kwname not in ('auto-str', 'uint', 'bytes', 'bitarray', 'hex'):
                 continue
             add(f'C20.constructor[{cname},{kwname}]', h_ctor(cname, kwname), 'initialiser kind x length in [-2,70] or None x offset in [-2,20] or None x every int pos')
+    for dk in ARRAY_DTYPES:
+        add(f'C20.array-ctor[{dk}]', h_array_ctor(dk), 'dtype x 12 initialisers x trailing bits x 14 follow-up operations (catalogues chosen by solver forks)', dtype=dk)
     for dtype in (['uint5', 'float16'] if q else ['uint5', 'int8', 'float16', 'hex4', 'bool', 'bytes2', 'e4m3mxfp']):
         for mname in ARRAY_METHODS:
             if q and dtype == 'float16' and mname not in ('append', 'count', '__setitem__', '__add__', '__truediv__', '__lt__'):
